@@ -169,6 +169,32 @@ def run(ctx, repo, tier):
     ctx.check(shape_ok > 0, "LAYOUT", "C19.shapes", f"{shape_ok} getter results have exactly the expected shape "
               f"({shape_unknown} matrix shapes not derivable, not counted)", "molgri/space/fullgrid.py:FullGrid._get_N_N",
               witness="no result shape could be derived")
+    # ---------------- Cartesian mode: border polygons may have no vertex at all; the polygon helpers assert an (N, 3) shape
+    import ast as _ast
+    pg = repo.cls(FG, "PositionGrid")
+    for m in pg.methods.values():
+        for n in _ast.walk(m.node):
+            if isinstance(n, _ast.Call) and isinstance(n.func, _ast.Name) and n.func.id == "order_points" and n.args:
+                arg = src(n.args[0])
+                guarded = False
+                p_ = getattr(n, "_parent", None)
+                while p_ is not None and p_ is not m.node:
+                    if isinstance(p_, _ast.If) and f"len({arg})" in src(p_.test) and n in _ast.walk(_ast.Module(body=p_.body, type_ignores=[])):
+                        guarded = True
+                    if isinstance(p_, _ast.IfExp) and f"len({arg})" in src(p_.test):
+                        guarded = True
+                    if isinstance(p_, (_ast.ListComp, _ast.GeneratorExp)) and any(f"len({arg})" in src(c) for g in p_.generators for c in g.ifs):
+                        guarded = True
+                    p_ = getattr(p_, "_parent", None)
+                ctx.instance("DOM")
+                if guarded:
+                    ctx.ok("DOM", "C19.cartesian.polygon_guard", "the polygon helpers are only called on border polygons that passed a length "
+                           "test (a pair of cells may share no Voronoi vertex)", m.where, src(n)[:100])
+                else:
+                    ctx.violate("DOM", "C19.cartesian.polygon_guard", "order_points (which asserts an (N, 3) array) is called on every border "
+                                "polygon without a length test: two position cells that are neighbours on the sphere but share no finite "
+                                "Cartesian Voronoi vertex give an empty array and the getter fails with AssertionError", m.where, src(n)[:120],
+                                witness="e.g. n_o = 4, n_t >= 2 in the Cartesian mode")
     ctx.require_instances("EXC", 100, "getter evaluations over the size box")
     ctx.trust(*META["trusted"])
     ctx.assume(*META["assumptions"])
